@@ -10,7 +10,7 @@ def _class(r):
     if r is None:
         return "?"
     if r["k"] == "boot":
-        return "boot"
+        return "boot-word-range" if r.get("word") else "boot"
     if r.get("hung"):
         return "hung-round"
     if not (r["exact"] and r["haslog"]):
@@ -36,6 +36,32 @@ def _stats(cases, recs):
         int64_extreme_runs=sum(r["emb"] >= 4 for r in rd),
         boot_cases_stated_inadmissible=sum(c["kind"] == "boot" and c["stated"] for c in cases),
         boot_cases_admissible=sum(c["kind"] == "boot" and not c["refused"] for c in cases))
+    # start-up over the whole word range of the durations (generated configurations;
+    # W = 8: 64 = H/2 is where doubling a Duration wraps, 127 = H-1, -128 = -H)
+    bw = [c["cfg"] for c in cases if c["kind"] == "bootw"]
+    st = {id(c["cfg"]): c["stated"] for c in cases if c["kind"] == "bootw"}
+    s["boot_word"] = dict(
+        cases=len(bw),
+        stated_inadmissible=sum(st[id(c)] for c in bw),
+        admissible=sum(not st[id(c)] for c in bw),
+        timeout_in_upper_half=sum(c["timeout"] >= 64 for c in bw),
+        timeout_in_upper_half_and_interval_positive=sum(c["timeout"] >= 64 and c["interval"] > 0 for c in bw),
+        timeout_is_largest_word=sum(c["timeout"] == 127 for c in bw),
+        interval_is_largest_word=sum(c["interval"] == 127 for c in bw),
+        interval_in_upper_half_and_admissible=sum(c["interval"] >= 64 and not st[id(c)] for c in bw),
+        timeout_exactly_half_interval=sum(c["interval"] > 0 and c["timeout"] == c["interval"] // 2 for c in bw),
+        timeout_half_interval_plus_one=sum(c["interval"] > 0 and c["timeout"] == c["interval"] // 2 + 1 for c in bw),
+        timeout_equals_interval=sum(c["interval"] > 0 and c["timeout"] == c["interval"] for c in bw),
+        timeout_zero=sum(c["timeout"] == 0 for c in bw),
+        timeout_negative=sum(c["timeout"] < 0 for c in bw),
+        interval_nonpositive=sum(c["interval"] <= 0 for c in bw),
+        smallest_word_somewhere=sum(-128 in (c["timeout"], c["interval"], c["cutoff"]) for c in bw),
+        cutoff_extreme=sum(c["cutoff"] in (-128, 127) for c in bw),
+        # driver side (not a guard)
+        records=sum(r["k"] == "boot" and r.get("word", False) for r in recs),
+        records_unit_2_56=sum(r["k"] == "boot" and r.get("word", False) and r["unit"].startswith("2^56") for r in recs),
+        records_with_MaxInt64=sum(r["k"] == "boot" and r.get("word", False) and "MaxInt64" in r["unit"] for r in recs),
+        records_refused=sum(r["k"] == "boot" and r.get("word", False) and r["refused"] for r in recs))
     kinds = {"ok": 0, "err": 0, "late": 0, "never": 0}
     cl = dict(both_contribute=0, ref_only=0, peer_only=0, peer_within_cutoff=0, peer_at_cutoff=0,
               ref_clamped=0, peer_clamped=0, clamped_negative=0, rounds_with_stale_ref_slots=0, rounds=0)
@@ -128,6 +154,9 @@ def run(ctx):
     g = ctx.tlc("SyncRoundMC", "SyncRound_boot.cfg", workers=1, timeout=300, tag="gen-boot")
     cases = ctx.emitted(g["out"])
     nboot = len(cases)
+    nword = sum(c["kind"] == "bootw" for c in cases)
+    ctx.log("TLC start-up grids: %d distinct states (%.0fs); %d of the %d configurations range over the whole word"
+            % (g["distinct"], g["wall_s"], nword, nboot))
     g = ctx.tlc("SyncRoundMC", "SyncRound_gen.cfg", workers=1, timeout=600, tag="gen-sim",
                 simulate="num=%d" % (500 if q else 5000), depth=40)
     cases += ctx.emitted(g["out"])
@@ -137,8 +166,9 @@ def run(ctx):
         cases += ctx.emitted(g["out"])
     ctx.log("generated: %d start-up cases, %d sampled behaviours, %d state representatives"
             % (nboot, nsim, len(cases) - nboot - nsim))
-    if nboot < 100 or nsim < 100:
-        raise vlib.Inconclusive("behaviour generator produced too little (%d boot, %d runs)" % (nboot, nsim))
+    if nboot < 100 or nsim < 100 or nword < 100:
+        raise vlib.Inconclusive("behaviour generator produced too little (%d boot of which %d word-range, %d runs)"
+                                % (nboot, nword, nsim))
     cp = ctx.path("cases.ndjson")
     vlib.write_ndjson(cp, cases)
     # 3. the real sync.Run under value embeddings
@@ -188,6 +218,32 @@ def run(ctx):
               "int64_extreme_runs", "rounds_with_stale_ref_slots"):
         if st[k] == 0 and not ctx.violations:
             raise vlib.Inconclusive("vacuous run: no recorded round of class %s" % k)
+    bw = st["boot_word"]
+    for k in ("stated_inadmissible", "admissible", "timeout_in_upper_half_and_interval_positive",
+              "timeout_is_largest_word", "interval_is_largest_word", "interval_in_upper_half_and_admissible",
+              "timeout_exactly_half_interval", "timeout_half_interval_plus_one", "timeout_equals_interval",
+              "timeout_zero", "timeout_negative", "interval_nonpositive", "smallest_word_somewhere", "cutoff_extreme"):
+        if bw[k] == 0 and not ctx.violations:
+            raise vlib.Inconclusive("vacuous run: no generated start-up configuration of word-range class %s" % k)
+    ctx.notes.append(
+        "start-up over the whole Duration range (SyncRound.tla: cutoff/interval/timeout are W-bit words, the prologue "
+        "with Go's truncating division, the statement over the integers; SyncRoundMC BootWord grid, every combination, "
+        "exhaustive in the model; replayed on the real sync.Run with the time units 2^56 ns (the 8-bit word IS int64: "
+        "64 -> 2^62, -128 -> MinInt64), 2^56 ns with 127 -> MaxInt64, and 1 ns; refused = Run panicked before the "
+        "loop, accepted = Run reached clk.Sleep): %d generated configurations, %d stated inadmissible / %d admissible; "
+        "%d with the timeout in the upper half of the range (>= 2^62; %d of them with a positive interval, where a "
+        "doubled timeout would wrap), %d with timeout = largest word, %d with interval = largest word, %d admissible "
+        "with the interval in the upper half, %d with timeout = interval/2, %d with interval/2 + 1, %d with timeout = "
+        "interval, %d with timeout 0, %d negative timeouts, %d non-positive intervals, %d containing the smallest word, "
+        "%d with an extreme cutoff; %d records (%d at unit 2^56 ns, %d with MaxInt64), %d refused; judged by Refused "
+        "(model units) and by the same statement on the real int64 values (math/big, raw_ok)"
+        % (bw["cases"], bw["stated_inadmissible"], bw["admissible"], bw["timeout_in_upper_half"],
+           bw["timeout_in_upper_half_and_interval_positive"], bw["timeout_is_largest_word"],
+           bw["interval_is_largest_word"], bw["interval_in_upper_half_and_admissible"],
+           bw["timeout_exactly_half_interval"], bw["timeout_half_interval_plus_one"], bw["timeout_equals_interval"],
+           bw["timeout_zero"], bw["timeout_negative"], bw["interval_nonpositive"], bw["smallest_word_somewhere"],
+           bw["cutoff_extreme"], bw["records"], bw["records_unit_2_56"], bw["records_with_MaxInt64"],
+           bw["records_refused"]))
     lc = st["local_clock"]
     for k in ("after_on_time_sleep", "after_late_sleep", "after_stepped_reading",
               "after_reading_jumped_2_intervals_or_more", "after_reading_went_backwards",
@@ -213,7 +269,9 @@ def run(ctx):
     rounds = [x for x in recs if x["k"] == "round"]
     ctx.cov.update(
         evaluations=len(recs), distinct_nontrivial=distinct,
-        rule="start-up: every configuration of the 960-point grid (TLC-enumerated) x 2 time units; rounds: "
+        rule="start-up: every configuration of the 960-point grid (TLC-enumerated) x 2 time units + every "
+             "configuration of the 684-point word-range grid (3 cutoffs x 12 intervals x 19 timeouts over -128..127) "
+             "x time units 2^56 ns / 2^56 ns with MaxInt64 / 1 ns; rounds: "
              "TLC-simulated behaviours of SyncRound (seeded; 3 rounds; up to 3 reference clocks and 2 peers; "
              "ok/err/late/never outcomes; 25 offset values incl. the word extremes; each clk.Sleep call returns "
              "on time or 1/2..99 intervals late and/or with the reading clk.Now() stepped by -100..+99 intervals)"
@@ -230,7 +288,11 @@ def run(ctx):
         "the offsets each side reported and the bounded contributions are read from the 'correcting clock' debug "
         "record sync.Run gives to the supplied slog.Logger (float64 seconds, inverted exactly or the record is opaque)",
         "impact factors are multiples of 1/4 and caps are chosen so that the float64 products in Run are exact",
-        "SyncTimeout > 0 in replayed admissible configurations (with 0 the deadline races with the answers)",
+        "SyncTimeout > 0 in replayed admissible configurations (with 0 the deadline races with the answers); "
+        "start-up cases include 0 (only refusal/acceptance is recorded there)",
+        "word-range start-up cases: factors and drift admissible (6/4, 11/4, 1 per unit), the clock's drift is per "
+        "time unit (Drift(SyncInterval) stays small); the statement's classification of the real configuration "
+        "(math/big) must equal the model's or the driver fails (inconclusive)",
         "small scope: <= 3 reference clocks, <= 2 peers, 2 rounds exhaustively; 3 rounds sampled",
         "the local clock moves only inside clk.Sleep (late return and/or step of the reading, new epoch per step); "
         "jumps while a round is measuring, and a Sleep that returns early, are not generated",
